@@ -771,7 +771,9 @@ def r_wrap(ctx) -> RuleResult:
             if cs.kind == "tucan" and cs.target.fq == wh.fq and len(cs.node.args) >= 2:
                 n_lines += 1
                 chars = _last_chars(ctx, fi, _resolve_template(fi, cs.node.args[1]))
-                ok = chars is not None and cont not in chars
+                if chars is None:
+                    raise AnalysisError(f"R-WRAP: cannot tell the last character of the logical line `{short(cs.node.args[1], 60)}` written in {fi.qualname}")
+                ok = cont not in chars
                 res.inst(fi.fq, f"logical line {short(cs.node.args[1], 70)} cannot end in {cont!r}", "ok" if ok else "fail", detail=f"last character ∈ {sorted(chars) if chars is not None else 'unknown'}")
                 if not ok:
                     res.fail(Finding("R-WRAP", fi.module.rel, fi.qualname, norm(cs.node.args[1]),
@@ -1462,3 +1464,122 @@ def _check_line_sequence(ctx, wh: FuncInfo, res: RuleResult):
             res.fail(Finding("R-FIELDS", bondf.module.rel, bondf.qualname, norm(guard.test), "the bond block is omitted under a condition the reader does not mirror (bond count 0)", line=guard.lineno))
     else:
         res.inst(bondf.fq, "bond block always written", "ok")
+
+
+# --------------------------------------------------------------------------- R-NUMTEXT
+
+
+def _numeric_spec(ctx, fi, e, depth=0) -> Optional[list]:
+    """format specs under which expression e turns a number into text ([] = str() / plain {} of a number); None if e is not
+    recognisably the text of a number"""
+    if depth > 5 or e is None:
+        return None
+    if isinstance(e, ast.JoinedStr):
+        fv = [p for p in e.values if isinstance(p, ast.FormattedValue)]
+        lits = [p for p in e.values if isinstance(p, ast.Constant) and p.value]
+        if len(fv) == 1 and not lits and fv[0].format_spec is not None:
+            spec = try_const(ctx, fi, fv[0].format_spec)
+            if isinstance(spec, str) and spec[-1:] in "fFeEgGdn%":
+                return [spec]
+        return None
+    if isinstance(e, ast.Call):
+        if isinstance(e.func, ast.Name) and e.func.id == "format" and len(e.args) == 2:
+            spec = try_const(ctx, fi, e.args[1])
+            return [spec] if isinstance(spec, str) and spec[-1:] in "fFeEgGdn%" else None
+        if isinstance(e.func, ast.Attribute) and e.func.attr == "format" and len(e.args) == 1 and not e.keywords:
+            tpl = try_const(ctx, fi, e.func.value)
+            if isinstance(tpl, str) and tpl.startswith("{") and tpl.endswith("}") and tpl.count("{") == 1 and ":" in tpl:
+                spec = tpl[1:-1].split(":", 1)[1]
+                return [spec] if spec[-1:] in "fFeEgGdn%" else None
+        if isinstance(e.func, ast.Name) and e.func.id in ("str", "repr") and len(e.args) == 1:
+            a = e.args[0]
+            if isinstance(a, ast.Call) and isinstance(a.func, ast.Name) and a.func.id in ("float", "int", "round", "abs"):
+                return [""]
+        if isinstance(e.func, ast.Attribute) and e.func.attr in ("strip", "rstrip", "lstrip", "lower", "upper"):
+            return _numeric_spec(ctx, fi, e.func.value, depth + 1)
+        return None
+    if isinstance(e, ast.BinOp) and isinstance(e.op, ast.Mod):
+        tpl = try_const(ctx, fi, e.left)
+        if isinstance(tpl, str) and tpl.startswith("%") and tpl.count("%") == 1 and tpl[-1:] in "fFeEgGdi":
+            return [tpl[1:]]
+        return None
+    if isinstance(e, ast.IfExp):
+        a, b = _numeric_spec(ctx, fi, e.body, depth + 1), _numeric_spec(ctx, fi, e.orelse, depth + 1)
+        return (a or []) + (b or []) if (a is not None or b is not None) else None
+    if isinstance(e, ast.Name):
+        defs = assigned_names(fi.node).get(e.id, [])
+        out = None
+        for d in defs:
+            v = getattr(d, "value", None) if isinstance(d, (ast.Assign, ast.AnnAssign, ast.NamedExpr)) else None
+            if v is None or (isinstance(d, ast.Assign) and not isinstance(d.targets[0], ast.Name)):
+                continue
+            if any(isinstance(x, ast.Name) and x.id == e.id for x in ast.walk(v)):
+                continue          # x = x.rstrip(..): the trimmed text itself, judged at its own site
+            s = _numeric_spec(ctx, fi, v, depth + 1)
+            if s is not None:
+                out = (out or []) + s
+        return out
+    return None
+
+
+@rule("R-NUMTEXT")
+def r_numtext(ctx) -> RuleResult:
+    res = RuleResult("R-NUMTEXT", "in the molfile writer the text of a formatted number is written as formatted: nothing trims characters that can be digits of the value, and nothing cuts it to a fixed width")
+    n_sites = n_numeric = 0
+    for fi in closure(ctx, "write"):
+        if fi.module.name != entry(ctx, "write").module.name:
+            continue
+        for n in own_walk(fi.node):
+            if isinstance(n, ast.Call) and isinstance(n.func, ast.Attribute) and n.func.attr in ("strip", "rstrip", "lstrip") and len(n.args) == 1:
+                n_sites += 1
+                specs = _numeric_spec(ctx, fi, n.func.value)
+                if specs is None:
+                    res.inst(fi.fq, f"`{short(n, 50)}`: not the text of a number", "ok")
+                    continue
+                n_numeric += 1
+                chars = try_const(ctx, fi, n.args[0])
+                if not isinstance(chars, str):
+                    raise AnalysisError(f"R-NUMTEXT: the characters trimmed by `{short(n)}` in {fi.qualname} are not constant")
+                m = n.func.attr
+                why = None
+                fixed_point = all(isinstance(s, str) and s[-1:] in "fF" and "." in s and s.split(".")[-1][:-1].isdigit() and int(s.split(".")[-1][:-1]) > 0 for s in specs)
+                if m in ("rstrip", "strip"):
+                    if any(c in chars for c in "123456789"):
+                        why = f"trailing characters in {chars!r} include non-zero digits"
+                    elif "0" in chars and "." in chars:
+                        why = f"{chars!r} is a character set: once the decimal point is gone the zeros of the integer part go too (1230.000000 becomes 123)"
+                    elif "0" in chars and not fixed_point:
+                        why = f"trailing zeros are removed from a number written without a fixed decimal point (format {specs}): 1230 becomes 123"
+                if why is None and m in ("lstrip", "strip"):
+                    if "-" in chars:
+                        why = f"leading characters in {chars!r} include the sign"
+                    elif any(c in chars for c in "123456789"):
+                        why = f"leading characters in {chars!r} include non-zero digits"
+                    elif "0" in chars and not fixed_point:
+                        why = f"leading zeros are removed from a number written without decimals (format {specs}): 0 becomes empty"
+                res.inst(fi.fq, f"`{short(n, 50)}` keeps the value of the number (format {specs})", "fail" if why else "ok")
+                if why:
+                    res.fail(Finding("R-NUMTEXT", fi.module.rel, fi.qualname, norm(n), f"the text of a formatted number is trimmed and its value changes: {why}; the file reads back with other coordinates / values", line=n.lineno))
+            elif isinstance(n, ast.Subscript) and isinstance(n.slice, ast.Slice) and isinstance(n.ctx, ast.Load):
+                specs = _numeric_spec(ctx, fi, n.value)
+                if specs is None:
+                    continue
+                n_sites += 1
+                n_numeric += 1
+                lo = try_const(ctx, fi, n.slice.lower) if n.slice.lower is not None else None
+                hi = try_const(ctx, fi, n.slice.upper) if n.slice.upper is not None else None
+                bad = isinstance(lo, int) and lo != 0 or isinstance(hi, int)
+                res.inst(fi.fq, f"`{short(n, 50)}` keeps the whole text of the number", "fail" if bad else "ok")
+                if bad:
+                    res.fail(Finding("R-NUMTEXT", fi.module.rel, fi.qualname, norm(n), "the text of a formatted number is cut at a fixed position: digits of large or long values are dropped", line=n.lineno))
+    # fixture: the classification must see a planted trim of a formatted coordinate
+    from ..model import Repo
+    from types import SimpleNamespace
+    fx = Repo(ctx.repo.root, {**ctx.repo.overlay, "tucan/_tsa_fixture_numtext.py": "def _fx(v):\n    s = f'{v:.6f}'\n    s = s.rstrip('0.')\n    return s\n"})
+    ffx = fx.func("tucan._tsa_fixture_numtext._fx")
+    call = next(x for x in ast.walk(ffx.node) if isinstance(x, ast.Call) and isinstance(x.func, ast.Attribute) and x.func.attr == "rstrip")
+    if _numeric_spec(SimpleNamespace(repo=fx, cache={}, cg=None), ffx, call.func.value) != [".6f"]:
+        raise AnalysisError("R-NUMTEXT self-test: the planted trim of a formatted number is not recognised")
+    res.counts = {"trim_or_cut_sites": n_sites, "on_number_text": n_numeric, "fixture_detected": 1}
+    res.notes.append("expected count on today's tree is zero: the writer formats numbers and writes them as they are")
+    return res
